@@ -95,6 +95,59 @@ func runC18(c *Ctx, pr *PropertyRun) {
 	for k, n := range kinds {
 		r.Count("root_"+k, n)
 	}
+	// an error value the library was handed (found with errors.As or a type
+	// assertion) is not the library's to change: a backend may return one
+	// shared value from every call, and rewriting its fields changes the
+	// answer of every later (and concurrent) request
+	for _, fn := range p.ModFns {
+		if !inLib(fn) || len(fn.Blocks) == 0 {
+			continue
+		}
+		eachInstr(fn, func(_ *ssa.BasicBlock, in ssa.Instruction) {
+			st, ok := in.(*ssa.Store)
+			if !ok {
+				return
+			}
+			fa, ok := st.Addr.(*ssa.FieldAddr)
+			if !ok {
+				return
+			}
+			// the object: loaded from a local that errors.As filled, or the
+			// result of a type assertion on an error
+			foreign := ""
+			switch x := fa.X.(type) {
+			case *ssa.UnOp:
+				if al, isAl := x.X.(*ssa.Alloc); isAl {
+					for _, ref := range refsOf(al) {
+						if call, isCall := ref.(*ssa.Call); isCall && calleeName(call.Common()) == "errors.As" {
+							foreign = "found with errors.As"
+						}
+						if mi, isMI := ref.(*ssa.MakeInterface); isMI {
+							for _, r2 := range refsOf(mi) {
+								if call, isCall := r2.(*ssa.Call); isCall && calleeName(call.Common()) == "errors.As" {
+									foreign = "found with errors.As"
+								}
+							}
+						}
+					}
+				}
+			case *ssa.TypeAssert:
+				if isErrorType(x.X.Type()) {
+					foreign = "obtained by a type assertion on an error"
+				}
+			case *ssa.Extract:
+				if ta, isTA := x.Tuple.(*ssa.TypeAssert); isTA && isErrorType(ta.X.Type()) {
+					foreign = "obtained by a type assertion on an error"
+				}
+			}
+			if foreign == "" {
+				return
+			}
+			r.Role("write-site")
+			r.Ob(false)
+			r.Violation("foreign-error-write|"+fnKey(fn), p.instrPos(st), fmt.Sprintf("%s writes a field of an error value %s: the value belongs to whoever returned it (a backend may return the same value from every call), so the change shows in every later and concurrent request", fnKey(fn), foreign), nil)
+		})
+	}
 	// call sites handing a shared root to a writing parameter
 	cg := c.CG()
 	for _, fn := range p.ModFns {
@@ -214,6 +267,9 @@ func runC18(c *Ctx, pr *PropertyRun) {
 	ad.RequireRole("handler")
 
 	c18Upload(c, pr, "C18")
+	// Close reports the outcome of the request: what the request layer makes
+	// of each status class (shared with C14.status-tables)
+	c14TablesFor(c, pr, "C18")
 }
 
 func c18Upload(c *Ctx, pr *PropertyRun, prop string) {
@@ -613,7 +669,18 @@ func c18Upload(c *Ctx, pr *PropertyRun, prop string) {
 						}
 						fa, isFA := x.Addr.(*ssa.FieldAddr)
 						if !isFA {
-							continue // a captured local
+							// a local that a closure captures (the goroutine
+							// closes the read end when the request fails):
+							// what is loaded from it in this function is the
+							// same value
+							if al, isAl := x.Addr.(*ssa.Alloc); isAl {
+								for _, r2 := range refsOf(al) {
+									if ld, isLd := r2.(*ssa.UnOp); isLd && ld.X == ssa.Value(al) {
+										visit(ld, depth+1)
+									}
+								}
+							}
+							continue
 						}
 						n := namedOf(fa.X.Type())
 						if n == nil || n == p.NamedType(pkgWebdav, "fileWriter") {
@@ -668,6 +735,64 @@ func c18Upload(c *Ctx, pr *PropertyRun, prop string) {
 			pwClose = call
 		}
 	})
+	// Close made idempotent: its body runs once, through sync.Once, and the
+	// outcome is kept in a field of the writer that every call returns
+	var onceBody *ssa.Function
+	eachCall(closeFn, func(site ssa.CallInstruction) {
+		if calleeName(site.Common()) == "(*sync.Once).Do" && len(site.Common().Args) == 2 {
+			if mc, ok := site.Common().Args[1].(*ssa.MakeClosure); ok {
+				onceBody = mc.Fn.(*ssa.Function)
+			}
+		}
+	})
+	if pwClose == nil && onceBody != nil {
+		eachCall(onceBody, func(site ssa.CallInstruction) {
+			if call, ok := site.(*ssa.Call); ok && calleeName(call.Common()) == "(*io.PipeWriter).Close" {
+				pwClose = call
+			}
+		})
+		if pwClose != nil {
+			// the value received where closing succeeded is stored into a
+			// field; every return of Close is a load of that field
+			field := -1
+			eachInstr(onceBody, func(b *ssa.BasicBlock, in ssa.Instruction) {
+				st, ok := in.(*ssa.Store)
+				if !ok {
+					return
+				}
+				un, ok := st.Val.(*ssa.UnOp)
+				if !ok || un.Op != token.ARROW || !knownNilAt(pwClose, b) {
+					return
+				}
+				if fa, ok := st.Addr.(*ssa.FieldAddr); ok {
+					if pt, ok := fa.X.Type().Underlying().(*types.Pointer); ok && namedOf(pt.Elem()) == fwT {
+						field = fa.Field
+					}
+				}
+			})
+			okAll := field >= 0
+			for _, b := range closeFn.Blocks {
+				ret, ok := b.Instrs[len(b.Instrs)-1].(*ssa.Return)
+				if !ok || len(ret.Results) != 1 {
+					continue
+				}
+				ld, ok := ret.Results[0].(*ssa.UnOp)
+				if !ok || ld.Op != token.MUL {
+					okAll = false
+					continue
+				}
+				fa, ok := ld.X.(*ssa.FieldAddr)
+				if !ok || fa.Field != field {
+					okAll = false
+				}
+			}
+			r.Ob(okAll)
+			if !okAll {
+				r.Violation("close-result|"+fnKey(closeFn), p.Pos(closeFn.Pos()), "fileWriter.Close runs its body once (sync.Once) but does not return, on every call, the field in which the value received from the done channel is kept", nil)
+			}
+			goto receives
+		}
+	}
 	if pwClose == nil {
 		r.Ob(false)
 		r.Violation("no-pipe-close|"+fnKey(closeFn), p.Pos(closeFn.Pos()), "fileWriter.Close does not close the pipe writer: the request body never ends and the request never completes", nil)
@@ -702,6 +827,7 @@ func c18Upload(c *Ctx, pr *PropertyRun, prop string) {
 		r.Violation("close-result|"+fnKey(closeFn), p.Pos(closeFn.Pos()), "fileWriter.Close has no return of the value received from the done channel on the path where closing the pipe succeeded", nil)
 	}
 	_ = errRet
+receives:
 	// the done channel is received from exactly once: in Close, not in a loop
 	for _, fn := range p.ModFns {
 		if !inLib(fn) {
@@ -732,7 +858,7 @@ func c18Upload(c *Ctx, pr *PropertyRun, prop string) {
 					inLoop = true
 				}
 			}
-			ok = fn == closeFn && !inLoop
+			ok = (fn == closeFn || (onceBody != nil && fn == onceBody)) && !inLoop
 			r.Ob(ok)
 			if !ok {
 				r.Violation("extra-receive|"+fnKey(fn), p.instrPos(un), fnKey(fn)+" receives from the upload's done channel: exactly one value is ever sent on it, so Close (which must receive it) blocks forever afterwards", nil)
